@@ -320,20 +320,27 @@ def run(pid, tier, seed, replay=None):
     nontrivial = getattr(prop, "nontrivial", lambda c: True)
     distinct = {(c.be, c.line) for c in cases if nontrivial(c)}
     samples = [c.as_dict() for c in cases[:: max(1, len(cases) // 6)][:6]]
+    coverage = dict(
+        obligations=max(obligations, 1), discharged=discharged,
+        checker_cmd=f"cd /verif/lean && lake build {' '.join(prop.LEAN_MODULES)} && lake env lean ../work/audit_{pid}.lean",
+        trusted_base=TRUSTED + list(getattr(prop, "TRUSTED_EXTRA", [])),
+        theorems=thm_names, axioms=axioms,
+        evaluations=len(cases), distinct_nontrivial=len(distinct),
+        rule=getattr(prop, "RULE", "op lines generated from the model registry; non-trivial = distinct (back-end, op line) pairs accepted by the property's nontrivial() predicate"),
+        samples=samples or [dict(note="no correspondence cases executed")],
+        input_classes=hist, oracle_ok=sum(1 for c in cases if c.verdict == "ok"),
+        oracle_skipped=sum(1 for c in cases if c.verdict.startswith("skip")),
+        model_disagreements=len(disagree), known_findings=sorted(known_hits),
+        broken_obligations=[b.obligation for b in broken], timings=timings)
+    for k, v in extra_cov.items():
+        if k in ("evaluations", "distinct_nontrivial"):
+            coverage[k] += v
+        elif k == "samples":
+            coverage["samples"] = (samples + list(v)) or coverage["samples"]
+        else:
+            coverage[k] = v
     ev = dict(
-        property_id=pid, tier=tier, seed=seed, level="proof",
-        coverage=dict(
-            obligations=max(obligations, 1), discharged=discharged,
-            checker_cmd=f"cd /verif/lean && lake build {' '.join(prop.LEAN_MODULES)} && lake env lean ../work/audit_{pid}.lean",
-            trusted_base=TRUSTED + list(getattr(prop, "TRUSTED_EXTRA", [])),
-            theorems=thm_names, axioms=axioms,
-            evaluations=len(cases), distinct_nontrivial=len(distinct),
-            rule=getattr(prop, "RULE", "op lines generated from the model registry; non-trivial = distinct (back-end, op line) pairs accepted by the property's nontrivial() predicate"),
-            samples=samples or [dict(note="no correspondence cases executed")],
-            input_classes=hist, oracle_ok=sum(1 for c in cases if c.verdict == "ok"),
-            oracle_skipped=sum(1 for c in cases if c.verdict.startswith("skip")),
-            model_disagreements=len(disagree), known_findings=sorted(known_hits),
-            broken_obligations=[b.obligation for b in broken], timings=timings, **extra_cov),
+        property_id=pid, tier=tier, seed=seed, level="proof", coverage=coverage,
         assumptions=list(getattr(prop, "ASSUMPTIONS", [])),
         wall_s=round(time.time() - t_start, 2), violations=violations)
     write_evidence(pid, ev)
